@@ -124,6 +124,19 @@ def check_batch(lang, fs, batch, fail, kind=''):
         if miss:
             fail('records_missing', f'[{lang}] to_string(format={f!r}) returned, but not one record per tree of every sentence: {miss}',
                  {'lang': lang, 'format': f, 'batch': rc.enc_batch(batch), 'kind': kind})
+    # the same result objects rendered in one format after another (what a caller that writes several files does): still no error
+    import random as _r
+    rr = _r.Random(hash((lang, kind, len(batch))) & 0xffffffff)
+    if len(fs) >= 2:
+        for _ in range(2):
+            f1, f2 = rr.sample(fs, 2)
+            b = rc.fresh(batch)
+            r1 = rc.render(lang, b, f1)
+            r2 = rc.render(lang, b, f2)
+            if r1[0] == 'ok' and res.get(f2, ('ok',))[0] == 'ok' and r2[0] != 'ok':
+                fail('render_raises_after_other_format', f'[{lang}] to_string(format={f2!r}) raises {r2[1:]!r} on results that were rendered as {f1!r} before '
+                     f'(it succeeds on a fresh copy); batch of {len(batch)} sentence(s) ({kind})',
+                     {'lang': lang, 'format': f2, 'first_format': f1, 'batch': rc.enc_batch(batch), 'kind': kind})
     return res
 
 
@@ -200,7 +213,13 @@ def replay(data):
     for f in data.get('failures', []):
         d = f['data']
         msgs = []
-        check_batch(d['lang'], [d['format']], rc.dec_batch(d['batch']), lambda kind, desc, dd: msgs.append((kind, desc)), d.get('kind', ''))
+        if 'first_format' in d:
+            b = rc.dec_batch(d['batch'])
+            r1, r2 = rc.render(d['lang'], b, d['first_format']), rc.render(d['lang'], b, d['format'])
+            if r2[0] != 'ok':
+                msgs.append(('render_raises_after_other_format', repr(r2[1:])))
+        else:
+            check_batch(d['lang'], [d['format']], rc.dec_batch(d['batch']), lambda kind, desc, dd: msgs.append((kind, desc)), d.get('kind', ''))
         print(('STILL FAILS: ' if msgs else 'no longer fails: ') + f['desc'][:300])
         bad += bool(msgs)
     if not data.get('failures'):
